@@ -78,6 +78,14 @@ S3Set ==
       <<f(BlkE(<<>>, ECall(CFn("f"), <<V("a")>>))), m(<<callf>>)>>,
       <<IFn("f", <<Param("a", T8), Param("a", T16)>>, <<T8>>, BlkE(<<>>, Dec(1))), m(<<>>)>>,
       <<IFn("f", <<Param("a", T8), Param("a", T8)>>, <<T8>>, BlkE(<<>>, V("a"))), m(<<>>)>>,
+      <<IFn("f", <<Param("a", T8), Param("a", T16)>>, <<T16>>, BlkE(<<>>, V("a"))),
+        m(<<SExpr(AssertE(JetE("eq_16", <<ECall(CFn("f"), <<Dec(1), Dec(2)>>), Dec(2)>>)))>>)>>,
+      <<IFn("f", <<Param("a", T8), Param("b", T8), Param("a", T16)>>, <<T16>>, BlkE(<<>>, V("a"))),
+        m(<<SExpr(AssertE(JetE("eq_16", <<ECall(CFn("f"), <<Dec(1), Dec(2), Dec(3)>>), Dec(3)>>)))>>)>>,
+      \* the repeated name need not be adjacent, and the types may differ
+      <<IFn("f", <<Param("a", T8), Param("b", T8), Param("a", T8)>>, <<T8>>, BlkE(<<>>, V("b"))), m(<<>>)>>,
+      <<IFn("f", <<Param("a", T8), Param("b", T8), Param("a", T16)>>, <<T16>>, BlkE(<<>>, V("a"))), m(<<>>)>>,
+      <<IFn("f", <<Param("a", T8), Param("b", T16), Param("c", T8), Param("b", T16)>>, <<T8>>, BlkE(<<>>, V("a"))), m(<<>>)>>,
       <<IFn("f", <<Param("a", T8), Param("b", T16)>>, <<T16>>, BlkE(<<>>, V("b"))), m(<<SExpr(AssertE(JetE("eq_16", <<ECall(CFn("f"), <<Dec(1), Dec(2)>>), Dec(2)>>)))>>)>>,
       <<IAlias("A", T8), m(<<SLet(PId("x"), TAlias("A"), Dec(1))>>)>>, <<m(<<SLet(PId("x"), TAlias("A"), Dec(1))>>), IAlias("A", T8)>>,
       <<IAlias("A", TAlias("B")), IAlias("B", T8), m(<<>>)>>, <<IAlias("B", T8), IAlias("A", TAlias("B")), m(<<SLet(PId("x"), TAlias("A"), Dec(1))>>)>>,
